@@ -33,7 +33,11 @@ def config_text(spec):
     for name, med in sorted(spec['routes'].items()):
         nh = '2001:db8::1' if name == 'V6' else '192.0.2.1'
         lines.append(f'\t\troute {R[name]} next-hop {nh}' + (f' med {med}' if med is not None else '') + ';')
-    return NEIGHBOR.format(hold=spec.get('hold', 180), extra='passive true;' if spec.get('passive') else '', families=spec.get('families', 'ipv4 unicast;'), routes='\n'.join(lines))
+    extra = 'passive true;' if spec.get('passive') else ''
+    if spec.get('nocache'):
+        # no Adj-RIB-Out cache: adj-rib-out is off by default and only switched on by route-refresh
+        extra += ' adj-rib-out false; capability { route-refresh disable; }'
+    return NEIGHBOR.format(hold=spec.get('hold', 180), extra=extra, families=spec.get('families', 'ipv4 unicast;'), routes='\n'.join(lines))
 
 
 class World:
@@ -192,10 +196,18 @@ def reload_pairs(tier, seed):
     for up in (True, False):
         cases.append((dict(routes={'A': 10}, hold=180), dict(routes={'A': 10, 'V6': None}, hold=180, families='ipv4 unicast; ipv6 unicast;'), up, False))
         cases.append((dict(routes={'A': 10}, hold=180), dict(routes={'A': 10, 'V6': None}, hold=90, families='ipv4 unicast; ipv6 unicast;'), up, True))
+    # a neighbor without Adj-RIB-Out cache (adj-rib-out false, route-refresh disabled): the difference must still be applied
+    nocache = []
+    for old_r, new_r in itertools.product(route_sets[:5], repeat=2):
+        for up in (True, False):
+            nocache.append((dict(routes=old_r, hold=180, nocache=True), dict(routes=new_r, hold=180, nocache=True), up, False))
     if tier == 'quick':
         rnd.shuffle(cases)
-        keep = [c for c in cases if 'V6' in c[1]['routes']]
+        rnd.shuffle(nocache)
+        keep = [c for c in cases if 'V6' in c[1]['routes']] + nocache[:16]
         cases = keep + [c for c in cases if 'V6' not in c[1]['routes']][:90]
+    else:
+        cases += nocache
     for old, new, up, api in cases:
         evals += 1
         distinct.add(str((old, new, up, api)))
@@ -272,6 +284,10 @@ def failed_case(old, new, fault, up, api):
         elif fault == 'missing-file':
             cfg._text = False
             cfg._configurations = ['/nonexistent/exabgp.conf']
+        elif fault == 'empty-file':
+            cfg._configurations = ['']
+        elif fault == 'comments-only':
+            cfg._configurations = ['# everything was commented out\n# neighbor 127.0.0.1 { }\n']
         elif fault == 'parser-raises':
             cfg._configurations = [config_text(new) + N2.format(nh='192.0.2.1')]
             real = cfg.parse_section
@@ -326,7 +342,7 @@ def failed_reloads(tier, seed):
     route_sets = [{'A': 10, 'B': None}, {'A': 20, 'B': None}, {'A': 10}, {'A': 10, 'B': None, 'C': 5}]
     fails, evals, distinct, samples = [], 0, set(), []
     for old_r, new_r in itertools.product(route_sets[:2] if tier == 'quick' else route_sets, route_sets):
-        for fault in ('first-block', 'later-block', 'missing-file', 'parser-raises'):
+        for fault in ('first-block', 'later-block', 'missing-file', 'parser-raises', 'empty-file', 'comments-only'):
             for up in (True, False):
                 for api in ((False,) if tier == 'quick' else (False, True)):
                     old, new = dict(routes=old_r, hold=180), dict(routes=new_r, hold=180)
@@ -337,7 +353,7 @@ def failed_reloads(tier, seed):
                         fails.append(f)
                     if len(samples) < 3 and fault == 'later-block':
                         samples.append({'old': old, 'new': new, 'fault': fault, 'session_up_during_reload': up})
-    return {'evaluations': evals, 'distinct_nontrivial': len(distinct), 'bound': '2 neighbors; (2 quick / 4) x 4 route sets of neighbor 1 x 4 fault kinds (inside the changed block, in a later block, missing file, parser exception) x session up/down (x API route in thorough)', 'rule': 'one case = (old, new, fault position, session state, API route); distinct by value', 'samples': samples, 'failures': fails}
+    return {'evaluations': evals, 'distinct_nontrivial': len(distinct), 'bound': '2 neighbors; (2 quick / 4) x 4 route sets of neighbor 1 x 6 fault kinds (inside the changed block, in a later block, missing file, parser exception, empty file, comments only) x session up/down (x API route in thorough)', 'rule': 'one case = (old, new, fault position, session state, API route); distinct by value', 'samples': samples, 'failures': fails}
 
 
 @replayer('C17', 'failed-reloads')
